@@ -164,6 +164,15 @@ def run_replay_search(prop, unit_name, obligation, model, seed):
         return {"found": False, "error": "unparsable replay output"}
 
 
+def load_baseline():
+    """obligations discharged on the pinned tree, per unit, with the hash of the function source they were
+    generated from (tools/gen_baseline.py; committed, never written by a check)"""
+    p = os.path.join(ROOT, "baseline", "obligations.json")
+    if not os.path.exists(p):
+        return {}
+    return json.load(open(p))
+
+
 def load_known():
     p = os.path.join(ROOT, "known_findings.json")
     if not os.path.exists(p):
@@ -212,6 +221,7 @@ def main(argv=None):
     crashed = [r for r in results if r["error"]]
     rt = None if a.no_rt else run_rt(prop, tier, seed)
     known = load_known()
+    baseline = load_baseline()
     violations = []
     undecided = []
     known_hit = []
@@ -276,7 +286,19 @@ def main(argv=None):
                 json.dump(rec, open(path, "w"), indent=1, default=str)
                 violations.append((o["id"], path, True))
             else:
-                undecided.append(o["id"])
+                # solver `unknown`, no input replays.  If this very obligation was discharged on the pinned tree and
+                # the function's source has changed since, it is reported as a violation without a failing input;
+                # on unchanged source (or for an obligation the pinned tree did not have) it stays undecided.
+                b = baseline.get("%s|%s" % (name, json.dumps(variant, sort_keys=True))) if kind == "contract" else None
+                if b and r.get("sha") and b.get("sha256") != r.get("sha") and o["id"] in set(b.get("discharged", [])):
+                    if kf:
+                        known_hit.append((kf, o["id"]))
+                        continue
+                    rec["note"] = "discharged on the pinned tree (source sha256 %s), not discharged on this tree (sha256 %s)" % (b.get("sha256"), r.get("sha"))
+                    json.dump(rec, open(path, "w"), indent=1, default=str)
+                    violations.append((o["id"], path, True))
+                else:
+                    undecided.append(o["id"])
     rt_cov = None
     if rt is not None:
         if rt.get("error"):
